@@ -71,10 +71,15 @@ def ref_nearest_index(cvs, pt):
 # ---------------------------------------------------------------------------------------------
 
 
-def make_cvs(rng, shape, uniform):
+def make_cvs(rng, shape, uniform, far=False):
+    """Coordinate vectors; ``far``: a grid with small cells far from the origin (offset ~1e3, cells ~1e-2), where the
+    coordinates only make sense in double precision whatever the dtype of the data."""
     cvs = []
     for k in shape:
-        if uniform:
+        if far:
+            off = rng.choice([-1, 1]) * rng.uniform(900, 1100)
+            cv = off + (rng.uniform(0.005, 0.02) * np.arange(k) if uniform else np.sort(rng.uniform(0, 0.05, size=k)) + np.arange(k) * 0.002)
+        elif uniform:
             cv = rng.uniform(-2, 2) + rng.uniform(0.2, 1.5) * np.arange(k)
         else:
             cv = np.sort(rng.uniform(-2, 2, size=k)) + np.arange(k) * 0.05
@@ -119,14 +124,15 @@ def run_interpolators(ctx):
                     continue
                 for rep in range(ctx.reps(4, 30)):
                     shape = tuple(int(k) for k in rng.integers(2, 6, size=nd))
-                    cvs = make_cvs(rng, shape, uniform)
+                    far = (rep % 3 == 2)
+                    cvs = make_cvs(rng, shape, uniform, far)
                     f = rng.normal(size=shape).astype(dt)
                     if dt == 'complex128':
                         f = f + 1j * rng.normal(size=shape)
                     comp = {'nearest': 'nearest_interpolator', 'linear': 'linear_interpolator', 'peraxis': 'per_axis_interpolator'}[kind]
                     mixed = len(set(schemes)) > 1
-                    cfgb = '%dd;%s;%s;%s' % (nd, 'uniform' if uniform else 'nonuniform', np.dtype(dt).kind + str(np.dtype(dt).itemsize),
-                                            'mixed' if mixed else schemes[0])
+                    cfgb = '%dd;%s%s;%s;%s' % (nd, 'uniform' if uniform else 'nonuniform', ',far' if far else '', np.dtype(dt).kind + str(np.dtype(dt).itemsize),
+                                              'mixed' if mixed else schemes[0])
                     ctx.case('interp;%s;%s' % (comp, cfgb), (schemes, rep))
                     try:
                         interp = nearest_interpolator(f, cvs) if kind == 'nearest' else linear_interpolator(f, cvs) if kind == 'linear' \
@@ -138,6 +144,8 @@ def run_interpolators(ctx):
                         ctx.sample({'interpolator': comp, 'schemes': schemes, 'coord_vecs': cvs, 'dtype': dt})
                     fref = f.astype('complex128' if dt == 'complex128' else 'float64')
                     tol = 1e-5 if dt == 'float32' else 1e-12
+                    # conditioning of the normalised distance (x - x_i) / (x_{i+1} - x_i) in double precision
+                    tol += 16 * np.finfo(float).eps * max(float(np.abs(cv).max()) / float(np.diff(cv).min()) for cv in cvs)
                     sc = max(1.0, float(np.abs(f).max()))
                     singles = []
                     pts = point_kinds(rng, cvs)
@@ -324,17 +332,24 @@ def run_sampling(ctx):
 def run_resampling(ctx):
     rng = ctx.rng('resampling')
     idx = 0
-    for nd in (1, 2):
-        for interp in ('nearest', 'linear'):
-            for n1, n2 in [(4, 7), (7, 4), (5, 5), (3, 8), (6, 9)]:
+    for nd in (1, 2, 3):
+        scheme_list = [('nearest',) * nd, ('linear',) * nd] + [s_ for s_ in itertools.product(['nearest', 'linear'], repeat=nd) if len(set(s_)) > 1]
+        for schemes in scheme_list:
+            for rep in range(5 if nd < 3 else 2):
                 idx += 1
                 if not ctx.mine(idx):
                     continue
-                lo, hi = [0.0] * nd, [1.0, 2.0][:nd]
-                d1 = odl.uniform_discr(lo, hi, (n1,) * nd)
-                d2 = odl.uniform_discr(lo, hi, (n2,) * nd)
-                cfg = '%dd;%s;%s' % (nd, interp, 'refine' if n2 > n1 else ('coarsen' if n2 < n1 else 'same'))
-                ctx.case('resampling;' + cfg, (n1, n2))
+                shape1 = tuple(int(k) for k in rng.integers(3, 8, size=nd))
+                shape2 = tuple(int(k) for k in rng.integers(3, 10, size=nd))
+                lo = list(rng.uniform(-2, 2, size=nd)) if rep else [0.0] * nd
+                hi = [l + float(rng.uniform(0.5, 3)) for l in lo]
+                d1 = odl.uniform_discr(lo, hi, shape1)
+                d2 = odl.uniform_discr(lo, hi, shape2)
+                mixed = len(set(schemes)) > 1
+                # the scheme is given as a single string (all axes equal, rep even), or as a per-axis sequence
+                interp = schemes[0] if (not mixed and rep % 2 == 0) else list(schemes)
+                cfg = '%dd;%s;%s' % (nd, 'mixed' if mixed else schemes[0], 'string' if isinstance(interp, str) else 'sequence')
+                ctx.case('resampling;' + cfg, (shape1, shape2, schemes))
                 ctx.ev('resampling')
                 try:
                     op = odl.Resampling(d1, d2, interp)
@@ -344,16 +359,32 @@ def run_resampling(ctx):
                     op(x, out=out)
                     if not np.allclose(np.asarray(out), np.asarray(y), rtol=1e-13, atol=1e-13):
                         ctx.violation('Resampling', cfg, 'inplace!=oop')
+                    if tuple(op.interp_byaxis) != tuple(schemes):
+                        ctx.violation('Resampling', cfg, 'interp_byaxis-not-as-given', got=op.interp_byaxis)
                     cvs = [np.asarray(cv) for cv in d1.grid.coord_vectors]
                     f = np.asarray(x)
-                    bad = False
+                    ya = np.asarray(y)
                     for ix in np.ndindex(*d2.shape):
                         p = [d2.grid.coord_vectors[a][ix[a]] for a in range(nd)]
-                        acc = ref_vals(f, cvs, p, (interp,) * nd)
-                        if not any(abs(np.asarray(y)[ix] - a) <= 1e-12 * max(1.0, np.abs(f).max()) for a in acc):
-                            ctx.violation('Resampling', cfg, 'value!=multilinear-model', point=p, got=np.asarray(y)[ix], ref=acc[0])
-                            bad = True
+                        acc = ref_vals(f, cvs, p, schemes)
+                        if not any(abs(ya[ix] - a) <= 1e-12 * max(1.0, np.abs(f).max()) for a in acc):
+                            ctx.violation('Resampling', cfg, 'value!=multilinear-model', point=p, got=ya[ix], ref=acc[0])
                             break
+                    # the operators derived from it resample back with the same per-axis schemes
+                    for dname in ('inverse', 'adjoint'):
+                        try:
+                            back = getattr(op, dname)
+                        except (NotImplementedError, odl.OpNotImplementedError):
+                            continue
+                        ctx.ev('resampling')
+                        z = np.asarray(back(y))
+                        cvs2 = [np.asarray(cv) for cv in d2.grid.coord_vectors]
+                        for ix in np.ndindex(*d1.shape):
+                            p = [d1.grid.coord_vectors[a][ix[a]] for a in range(nd)]
+                            acc = ref_vals(ya, cvs2, p, schemes)
+                            if not any(abs(z[ix] - a) <= 1e-12 * max(1.0, np.abs(ya).max()) for a in acc):
+                                ctx.violation('Resampling.' + dname, cfg, 'value!=multilinear-model', point=p, got=z[ix], ref=acc[0])
+                                break
                 except Exception as e:
                     ctx.violation('Resampling', cfg, 'raises:' + type(e).__name__, message=str(e)[:200])
     # linear_deform with small displacements (points stay inside the hull)
